@@ -43,7 +43,7 @@ SPEC = {
                  'bounds': '1..20 digits: 3 leading digits free, the rest 0; unit d; unwind 23', 'asserts': 'get_duration_part: no panic; Ok(d) iff nb*mult fits u64 and d == nb*mult'},
                 {'name': 'c19_dur_part_lead3_w', 'file': DUR, 'timeout': 2400,
                  'bounds': '1..20 digits: 3 leading digits free, the rest 0; unit w; unwind 23', 'asserts': 'get_duration_part: no panic; Ok(d) iff nb*mult fits u64 and d == nb*mult'},
-                {'name': 'c19_dur_part', 'file': DUR, 'tiers': ['thorough'], 'timeout': 7200, 'mem_gb': 30,
+                {'name': 'c19_dur_part', 'file': DUR, 'tiers': ['dbg'], 'timeout': 14400, 'mem_gb': 30,
                  'bounds': '1..20 free digits + any unit; unwind 23', 'asserts': 'get_duration_part: no panic; Ok(d) iff nb*mult fits u64 and d == nb*mult'},
                 {'name': 'c19_dur_sum_overflow_concrete', 'file': DUR, 'tiers': ['thorough'], 'timeout': 7200, 'unwindset': {FOLD: 4}, 'violation_without_playback': True,
                  'bounds': '"18446744073709551615s1<u>", u any unit', 'asserts': 'parse_duration: Err, no panic'},
@@ -81,6 +81,8 @@ SPEC = {
             'assumptions': ENDPOINT_ASSUMPTIONS + ['duration::parse_duration cut: returns Err or any Duration of whole seconds (verified separately above)'],
             'harness_files': {EP: 'harness/endpoint.rs'},
             'harnesses': [
+                {'name': 'c19_rl_zero_among_two', 'file': EP, 'timeout': 1500, 'unwindset': {'RateLimit::new': 3, 'sort|insertion|merge|reverse': 3, 'swap_nonoverlapping': 8},
+                 'bounds': 'two limits, one with number 0 (either position), periods any u64 seconds or rejected', 'asserts': 'RateLimit::new rejects the configuration'},
                 {'name': 'c19_rl_first_request_n0', 'file': EP, 'timeout': 1500, 'bounds': 'number=0, period any u64 seconds (or rejected by the cut parser), empty log',
                  'asserts': 'RateLimit::new rejects, or the first request is admitted after one sleep: no division by zero, no overflow, no permanent refusal'},
                 {'name': 'c19_rl_first_request_n1', 'file': EP, 'timeout': 1500, 'bounds': 'number=1, period any u64 seconds (or rejected by the cut parser), empty log',
